@@ -38,7 +38,7 @@ rows2 = ["| change | property | what it breaks / what it needs | caught by |", "
 for m in sorted(glob.glob(os.path.join(ROOT, "seeded", "*", "meta.json"))):
     d = json.load(open(m))
     esc = lambda t: str(t).replace("|", "/").replace("\n", " ")
-    rows2.append("| seeded/%s | %s | %s — needs: %s | %s |" % (os.path.basename(os.path.dirname(m)), d["property"], esc(d.get("title", ""))[:160], esc(d.get("needs", ""))[:260], esc(d.get("caught_by", ""))[:330]))
+    rows2.append("| seeded/%s | %s | %s — needs: %s | %s |" % (os.path.basename(os.path.dirname(m)), d["property"], esc(d.get("title", ""))[:160], esc(d.get("needs", ""))[:260], (esc(d.get("caught_by", ""))[:330] + ((" — HISTORY: " + esc(d["history"])[:420]) if d.get("history") else ""))))
 a2, b2 = "<!-- SEEDED-BEGIN -->", "<!-- SEEDED-END -->"
 if a2 not in s:
     s = s.replace(b + "\n", b + "\n\n### 0.6 Independently written breaking changes (seeded/) and which check catches them\n\nEach change was written by a fresh sub-agent that saw only the property text and a scratch worktree of the repository, compiles, keeps the repository's suite green, and comes with a demonstration test that fails with it and passes without it (confirmed with tools/try_mutant.sh before it was kept). Changes that the first version of a check missed are noted with what was strengthened.\n\n" + a2 + "\n" + b2 + "\n", 1)
